@@ -596,6 +596,14 @@ def build(tier, seed):
                       bound="one star patch, one random state in the elastic range", clause="reported stored energy == 1/2 u'Ku == Elastic.Wdef (plane strain, plane stress, 3-D)", timeout=300))
     obs.append(Ob("C16.reshape.coincidence", ob_reshape_coincidence, (), "X", ("EasyFEA/Simulations/_simu.py::_Simu.Results_Reshape_values",), bound="one closed band of 12 triangles on 12 nodes",
                   clause="nodal form of an element-wise result on a mesh with as many elements as nodes", timeout=120))
+    # results of a restored iteration are functions of that iteration alone (energies and reactions of a phase-field simulation go through assembled matrices
+    # that depend on the damage): shared with C15.roundtrip
+    from . import C15
+    for variant in (None, "HistoryDamage", "BoundConstrain"):
+        obs.append(Ob(f"C16.restored.PhaseField.{variant or 'History'}", C15.ob_roundtrip, ("PhaseField", "memory", False, variant), "X",
+                      ("EasyFEA/Simulations/_phasefield.py::PhaseField.Set_Iter", "EasyFEA/Simulations/_phasefield.py::PhaseField.Result"),
+                      bound="3 solve/save steps on a 9-node patch, restores in the order 0, 1, 0, 2, 1, 0", timeout=300,
+                      clause="every advertised result after Set_Iter(i) is the same whichever iteration was current before (no matrix of another state is reused)"))
     obs.append(Ob("canary.indices", ob_indices, (2, True), "P", expect=REFUTED, timeout=300))
     functions = {"__Result_in_Strain_or_Stress_field": extract.get(MU, "__Result_in_Strain_or_Stress_field").describe(), "Elastic.Result": extract.get(SE, "Elastic.Result").describe(),
                  "Elastic._Calc_Psi_Elas": extract.get(SE, "Elastic._Calc_Psi_Elas").describe()}
